@@ -295,6 +295,9 @@ def run(ctx):
     scope.rule_scope_entered(ctx, "R2.12")
     scope.rule_who_raises_ref_error(ctx, "R2.13")
     scope.rule_custom_scheme_refs(ctx, "R2.15")
+    # R2.17: a reference leaves its scope when its errors have been taken: nothing keeps a half-consumed error iterator alive (C02-r6m1)
+    from .c07 import rule_no_held_iterator
+    rule_no_held_iterator(ctx, "R2.17")
     # R2.14: what a URI designates is what the store holds for it: outside the constructor the store is written in one place, under
     # the URL a document was retrieved for -- never under an id the retrieved document claims for itself (that would replace the
     # referrer or a caller-supplied document)
@@ -313,3 +316,6 @@ def run(ctx):
     from . import c15
     c15.rule_uridict(ctx, "R2.6a")
     c15.rule_seeding(ctx, "R2.6b")
+    # R2.16: no behaviour changes at a number fixed in the source (sizes, depths, counts, magnitudes are unbounded in the property's domain)
+    from . import scope as _scope
+    _scope.rule_no_size_thresholds(ctx, 'R2.16', ('validators',), 'reference resolution and the dispatcher')
